@@ -86,140 +86,3 @@ Proof.
   - eapply IH; eauto.
 Qed.
 
-Section Step4.
-Variable P : params.
-
-Ltac frame4_io HL4 :=
-  apply (L4_frame P _ _) with (7 := HL4); cbn; try reflexivity; intros; reflexivity.
-Ltac frame4_wk HL4 me Hw Hme :=
-  apply (L4_frame P _ _) with (7 := HL4); cbn; try reflexivity;
-  [ let j := fresh "j" in intro j; unfold upd; destruct (Nat.eqb_spec j me); [subst j; rewrite Hw|]; reflexivity
-  | let j := fresh "j" in let H := fresh in intros j H; unfold upd; destruct (Nat.eqb_spec j me);
-    [ subst j; apply Nat.ltb_lt in Hme; lia | reflexivity ] ].
-
-Lemma wwait_dl : forall pc, is_wwait pc = true -> wk_dl pc = true.
-Proof. destruct pc; simpl; congruence. Qed.
-
-Theorem L4_step : forall st c st' l, L0 st -> L1 st -> L4 P st -> step P st c = Some (st', l) -> L4 P st'.
-Proof.
-  intros st c st' l HL0 HL1 HL4 Hs.
-  pose proof (l1_q _ HL1) as Hq1.
-  destruct HL0 as [_ _ [D1 D2]].
-  destruct c as [e | me e].
-  - step_io Hs; cbn [sh io wk ipc] in *.
-    all: try solve [frame4_io HL4].
-    all: destruct HL4 as [QA QB QC QD QE QF]; cbn [sh io wk ipc] in *.
-    + (* add_task: acquire + append *)
-      apply free_none in E0.
-      assert (Hnw : forall j, is_wwait (wpc (w j)) = false).
-      { intro j. destruct (is_wwait (wpc (w j))) eqn:X; auto. apply wwait_dl in X. apply (proj2 (D2 j)) in X. congruence. }
-      split; cbn [sh io wk ipc]; intros; eauto.
-      all: try (rewrite Hnw in *; discriminate).
-      all: try (right; right; reflexivity).
-    + (* notify, nobody parked un-notified *)
-      split; cbn [sh io wk ipc]; intros; eauto.
-      specialize (QF H H0). destruct QF as [X|[X|X]]; auto.
-      assert (Hn : 0 < p_nw P) by lia.
-      destruct (awake (wpc (w 0))) eqn:Ea; [left; exists 0; auto|].
-      destruct (is_wwait (wpc (w 0))) eqn:Ew.
-      * rewrite (QB 0 Ew) in H0. lia.
-      * assert (Ep : is_parked (wpc (w 0)) = true) by (destruct (wpc (w 0)); simpl in *; congruence).
-        apply QD in Ep. rewrite E0 in Ep. simpl in Ep. right. left. intro Z. rewrite Z in Ep. contradiction.
-    + (* notify: the longest waiter is moved to the notified list *)
-      rewrite E0 in *.
-      split; cbn [sh io wk ipc]; intros; eauto.
-      * apply QC. eapply Permutation_in; [apply Permutation_sym; apply notify_perm | exact H].
-      * eapply Permutation_in; [apply notify_perm | apply QD; exact H].
-      * eapply Permutation_NoDup; [apply notify_perm | exact QE].
-      * right. left. intro Z. apply app_eq_nil in Z. destruct Z. discriminate.
-  - pose proof (q_wait _ _ HL4 me) as QBme. pose proof (q_w _ _ HL4 me) as QCme. pose proof (q_p _ _ HL4 me) as QDme.
-    step_wk Hs; cbn [sh io wk ipc] in *.
-    all: try solve [frame4_wk HL4 me Hw Hme].
-    all: assert (Hlt : me < p_nw P) by (apply Nat.ltb_lt; exact Hme).
-    all: destruct HL4 as [QA QB QC QD QE QF]; cbn [sh io wk ipc] in *.
-    all: cbn in QBme, QCme, QDme.
-    all: assert (QA' : forall j, p_nw P <= j -> j <> me) by (intros j X Y; subst j; lia).
-    + (* WAcqD, queue empty -> about to wait *)
-      split; cbn [sh io wk ipc]; intros; unfold upd in *; cbn [qwait qnotified queue set_qw set_dlock set_queue] in *.
-      * destruct (Nat.eqb_spec j me); [exfalso; eapply QA'; eauto | auto].
-      * destruct (Nat.eqb_spec j me); eauto.
-      * destruct (Nat.eqb_spec j me); [subst j|eauto]. apply QC in H. destruct H as [_ H]. rewrite Hw in H. discriminate.
-      * destruct (Nat.eqb_spec j me); [discriminate | eauto].
-      * exact QE.
-      * cbn in *. lia.
-    + (* WAcqD, takes the entry *)
-      assert (n = 0) by lia. subst n.
-      split; cbn [sh io wk ipc]; intros; unfold upd in *; cbn [qwait qnotified queue set_qw set_dlock set_queue] in *.
-      * destruct (Nat.eqb_spec j me); [exfalso; eapply QA'; eauto | auto].
-      * destruct (Nat.eqb_spec j me); [discriminate|]. apply QB in H. congruence.
-      * destruct (Nat.eqb_spec j me); [subst j|eauto]. apply QC in H. destruct H as [_ H]. rewrite Hw in H. discriminate.
-      * destruct (Nat.eqb_spec j me); [discriminate | eauto].
-      * exact QE.
-      * cbn in *. lia.
-    + (* WWait -> parked *)
-      assert (Hq0 : queue s = 0) by (apply QBme; reflexivity).
-      assert (Hnin : ~ In me (qwait s ++ qnotified s)).
-      { intro X. apply QC in X. destruct X as [_ X]. rewrite Hw in X. discriminate. }
-      split; cbn [sh io wk ipc]; intros; unfold upd in *; cbn [qwait qnotified queue set_qw set_dlock set_queue] in *.
-      * destruct (Nat.eqb_spec j me); [exfalso; eapply QA'; eauto | auto].
-      * destruct (Nat.eqb_spec j me); [discriminate | eauto].
-      * destruct (Nat.eqb_spec j me); [subst j; split; auto|].
-        apply QC. rewrite <- app_assoc in H. apply in_app_or in H. apply in_or_app. destruct H as [H|H]; auto.
-        simpl in H. destruct H as [H|H]; [congruence | auto].
-      * rewrite <- app_assoc. destruct (Nat.eqb_spec j me).
-        -- subst j. apply in_or_app. right. left. reflexivity.
-        -- apply QD in H. apply in_app_or in H. apply in_or_app. destruct H; auto. right. right. auto.
-      * rewrite <- app_assoc. simpl. eapply Permutation_NoDup; [apply Permutation_middle|]. constructor; auto.
-      * cbn in *. lia.
-    + (* parked, notified, queue empty -> waits again *)
-      apply andb_true_iff in E0. destruct E0 as [En Ef]. apply existsb_In in En.
-      split; cbn [sh io wk ipc]; intros; unfold upd in *; cbn [qwait qnotified queue set_qw set_dlock set_queue] in *.
-      * destruct (Nat.eqb_spec j me); [exfalso; eapply QA'; eauto | auto].
-      * destruct (Nat.eqb_spec j me); eauto.
-      * assert (Hj : In j (qwait s ++ qnotified s) /\ j <> me).
-        { apply in_app_or in H. destruct H as [H|H].
-          - split; [apply in_or_app; auto|]. intro; subst j. eapply NoDup_app_both; eauto.
-          - apply In_filter_ne in H. destruct H. split; auto. apply in_or_app; auto. }
-        destruct Hj as [Hj Hne]. destruct (Nat.eqb_spec j me); [contradiction | auto].
-      * destruct (Nat.eqb_spec j me); [discriminate|]. apply QD in H. apply in_app_or in H. apply in_or_app.
-        destruct H as [H|H]; auto. right. apply In_filter_ne. auto.
-      * apply NoDup_app_filter. auto.
-      * cbn in *. lia.
-    + (* parked, notified, takes the entry *)
-      assert (n = 0) by lia. subst n.
-      apply andb_true_iff in E0. destruct E0 as [En Ef]. apply existsb_In in En.
-      split; cbn [sh io wk ipc]; intros; unfold upd in *; cbn [qwait qnotified queue set_qw set_dlock set_queue] in *.
-      * destruct (Nat.eqb_spec j me); [exfalso; eapply QA'; eauto | auto].
-      * destruct (Nat.eqb_spec j me); [discriminate|]. apply QB in H. congruence.
-      * assert (Hj : In j (qwait s ++ qnotified s) /\ j <> me).
-        { apply in_app_or in H. destruct H as [H|H].
-          - split; [apply in_or_app; auto|]. intro; subst j. eapply NoDup_app_both; eauto.
-          - apply In_filter_ne in H. destruct H. split; auto. apply in_or_app; auto. }
-        destruct Hj as [Hj Hne]. destruct (Nat.eqb_spec j me); [contradiction | auto].
-      * destruct (Nat.eqb_spec j me); [discriminate|]. apply QD in H. apply in_app_or in H. apply in_or_app.
-        destruct H as [H|H]; auto. right. apply In_filter_ne. auto.
-      * apply NoDup_app_filter. auto.
-      * cbn in *. lia.
-    + (* add_task by the finishing worker *)
-      apply free_none in E0.
-      assert (Hnw : forall j, is_wwait (wpc (w j)) = false).
-      { intro j. destruct (is_wwait (wpc (w j))) eqn:X; auto. apply wwait_dl in X. apply (proj2 (D2 j)) in X. congruence. }
-      split; cbn [sh io wk ipc]; intros; unfold upd in *; cbn [qwait qnotified queue set_qw set_dlock set_queue] in *.
-      * destruct (Nat.eqb_spec j me); [exfalso; eapply QA'; eauto | auto].
-      * destruct (Nat.eqb_spec j me); [discriminate|]. rewrite Hnw in H. discriminate.
-      * destruct (Nat.eqb_spec j me); [subst j|eauto]. apply QC in H. destruct H as [_ H]. rewrite Hw in H. discriminate.
-      * destruct (Nat.eqb_spec j me); [discriminate | eauto].
-      * exact QE.
-      * left. exists me. rewrite Nat.eqb_refl. auto.
-    + (* notify by the finishing worker *)
-      rewrite E0 in *.
-      split; cbn [sh io wk ipc]; intros; unfold upd in *; cbn [qwait qnotified queue set_qw set_dlock set_queue] in *.
-      * destruct (Nat.eqb_spec j me); [exfalso; eapply QA'; eauto | auto].
-      * destruct (Nat.eqb_spec j me); [discriminate | eauto].
-      * assert (X : In j ((n :: l0) ++ qnotified s)) by (eapply Permutation_in; [apply Permutation_sym; apply notify_perm | exact H]).
-        destruct (Nat.eqb_spec j me); [subst j|eauto]. apply QC in X. destruct X as [_ X]. rewrite Hw in X. discriminate.
-      * destruct (Nat.eqb_spec j me); [discriminate|]. eapply Permutation_in; [apply notify_perm | apply QD; exact H].
-      * eapply Permutation_NoDup; [apply notify_perm | exact QE].
-      * left. exists me. rewrite Nat.eqb_refl. auto.
-Qed.
-End Step4.
